@@ -256,14 +256,15 @@ def ok_prog(status=200, n=5, read="all", kind="bytes", **kw):
     return p
 
 
-def seg_variants(rnd, total, boundaries, quick):
-    """Ways of cutting `total` wire bytes into read segments."""
+def seg_variants(rnd, total, boundaries, quick, must=()):
+    """Ways of cutting `total` wire bytes into read segments (`must`: cut offsets that are kept in every tier)."""
     out = [[total], [1] * total if total <= 600 else None]
     cuts = sorted(set(b + d for b in boundaries for d in (-3, -2, -1, 0, 1, 2, 3) if 0 < b + d < total))
     if not quick:
         cuts = sorted(set(cuts) | set(range(1, min(total, 400))))
     elif len(cuts) > 60:
         cuts = sorted(rnd.sample(cuts, 60))
+    cuts = sorted(set(cuts) | {c for c in must if 0 < c < total})
     for c in cuts:
         out.append([c, total - c])
     for _ in range(3 if quick else 10):
@@ -297,7 +298,12 @@ def framing_family(rnd, quick):
         wf.append([dict(rnd.choice(goods)) for _ in range(rnd.randint(1, 4))])
     wf += [[dict(g)] for g in goods]         # and every well-formed framing alone
     if quick:
-        scen = rnd.sample(scen, 30)
+        # every malformed class once, at a position drawn with the run's seed
+        by_cls = {}
+        for sc in scen:
+            bad = next(r for r in sc if r.get("framing", {}).get("k") in BAD_HEAD or str(r.get("framing", {}).get("k", "")).startswith("badchunk") or r.get("framing", {}).get("k") == "te10")
+            by_cls.setdefault(json.dumps(bad["framing"], sort_keys=True), []).append(sc)
+        scen = [rnd.choice(v) for _, v in sorted(by_cls.items())]
     scen += wf
     for reqs in scen:
         progs = [ok_prog() for _ in reqs]
@@ -308,10 +314,13 @@ def framing_family(rnd, quick):
             if g["badoff"] >= 0:
                 bounds.append(g["start"] + g["badoff"])
         off = 0
+        must = []
         for part in base["wire"]:        # every part boundary: chunk-size lines, chunk data, CRLFs
             bounds.append(off)
+            if part.get("bad") and "s" in part:
+                must += list(range(off, off + len(part["s"]) + 1))      # every offset inside the malformed chunk text
             off += len(part["s"]) if "s" in part else (part["body"][2] if "body" in part else part["fill"][1])
-        for segs in seg_variants(rnd, base["total"], bounds, quick):
+        for segs in seg_variants(rnd, base["total"], bounds, quick, must=must):
             c = h1gen.assemble(reqs, progs, steps=[{"seg": s} for s in segs], epilogue=True)
             c["origin"] = "framing-family"
             cases.append(c)
